@@ -14,6 +14,7 @@ limitations under the License.
 package ttlcache
 
 import (
+	"math"
 	"sync"
 	"sync/atomic"
 	"time"
@@ -88,6 +89,13 @@ func (c *Cache[V]) Set(key string, val V, ttl int64) {
 
 	if c.maxTTL > 0 && ttl > c.maxTTL {
 		ttl = c.maxTTL
+	}
+
+	// A time.Duration cannot hold more than about 292 years: a longer TTL is clamped to that
+	// instead of overflowing (which would put the expiration in the past)
+	const maxTTLSeconds = int64(math.MaxInt64 / int64(time.Second))
+	if ttl > maxTTLSeconds {
+		ttl = maxTTLSeconds
 	}
 
 	exp := c.clock.Now().Add(time.Duration(ttl) * time.Second)
